@@ -7,6 +7,7 @@ import (
 	"fmt"
 	"math/rand"
 	"sort"
+	"strings"
 
 	"verifharness/bridge"
 	"verifharness/tr"
@@ -536,6 +537,7 @@ func GenRounds(rnd *rand.Rand, persist bool) RHist {
 		alpha = []byte("01a")
 	}
 	maxLen := 1 + rnd.Intn(3)
+	longKeys := rnd.Intn(6) == 0
 	var pool [][]byte
 	path := func() []byte {
 		if len(pool) > 0 && rnd.Intn(100) < 65 {
@@ -550,10 +552,27 @@ func GenRounds(rnd *rand.Rand, persist bool) RHist {
 		for i := range p {
 			p[i] = alpha[rnd.Intn(len(alpha))]
 		}
+		if longKeys {
+			// realistic keys: 64 hex characters, derived from an earlier key from some position on
+			q := bytes.Repeat([]byte("0"), 64)
+			if len(pool) > 0 && rnd.Intn(3) > 0 {
+				copy(q, pool[rnd.Intn(len(pool))])
+			}
+			for j := []int{0, 1, 2, 31, 32, 60, 62, 63}[rnd.Intn(8)]; j < 64; j += 1 + rnd.Intn(20) {
+				q[j] = "0123456789abcdef"[rnd.Intn(16)]
+			}
+			p = q
+		}
 		pool = append(pool, p)
 		return p
 	}
 	vals := []string{"a", "b", "c"}
+	if rnd.Intn(4) == 0 {
+		// long binary values
+		for i := 0; i < 2; i++ {
+			vals = append(vals, "x"+strings.Repeat(fmt.Sprintf("%02x", 0x80+rnd.Intn(64)), 40+rnd.Intn(150)))
+		}
+	}
 	nrounds := 1
 	if persist {
 		nrounds = 3 + rnd.Intn(8)
